@@ -614,7 +614,7 @@ def gene_valley_locus(w, gid, chrom, p, strand):
 
 
 ZOO_ALL = ("ambiguous_only", "twins", "contested", "intronic", "apa", "alt_terminal", "shifted_site", "shared_chain", "same_coords",
-           "one_bp_exon", "lowmapq_two_exon", "mono_only", "gap_gene", "gene_valley")
+           "one_bp_exon", "lowmapq_two_exon", "mono_only", "gap_gene", "gene_valley", "odd_chroms")
 ZOO_NO_TIES = tuple(z for z in ZOO_ALL if z != "twins")
 
 
@@ -652,7 +652,23 @@ def add_zoo(w, parts=ZOO_ALL):
                 if c:
                     _reads_for(w, c)
             placed.add("same_coords")
-    for ci, chrom in enumerate(w.chrom_order):
+    if "odd_chroms" in parts and "chrU" not in w.chroms:
+        # a sequence with reads but without annotation, one with annotation but without reads, one with neither
+        n_before = len(w.chrom_order)
+        w.add_chrom("chrU", 30000)
+        for k in range(6):
+            ex = [(2000 + 10 * k, 2400), (3000, 3300), (4000, 4400 - 5 * k)]
+            for i in range(2):
+                w.plant_sites("chrU", (ex[i][1] + 1, ex[i + 1][0] - 1), "+")
+            w.make_read("chrU", ex, polya=30, truth={"class": "read-on-unannotated-sequence"})
+        w.add_chrom("chrE", 20000)
+        w.make_gene("GE1", "chrE", 2000, "+", n_exons=4, n_iso=2)
+        w.add_chrom("chrN", 9000)
+        placed.add("odd_chroms")
+        chroms_for_loci = w.chrom_order[:n_before]
+    else:
+        chroms_for_loci = list(w.chrom_order)
+    for ci, chrom in enumerate(chroms_for_loci):
         def room(n):
             return _free_pos(w, chrom) + n < w.chrom_len(chrom)
         tag = "%d" % (ci + 1)
